@@ -108,12 +108,12 @@ fn dig_fam<D: Digest + Clone>() -> Fam<D> {
     Fam {
         input: |d, b| Digest::input(d, b),
         result: |d| {
-            let mut out = vec![0u8; Digest::output_bytes(d)];
+            let mut out = vec![0xa5u8; Digest::output_bytes(d)];
             Digest::result(d, &mut out);
             out
         },
         raw: |d, n| {
-            let mut out = vec![0u8; n];
+            let mut out = vec![0xa5u8; n];
             Digest::result(d, &mut out);
             out
         },
@@ -130,7 +130,7 @@ fn mac_fam<M: Mac>() -> Fam<M> {
         input: |m, b| Mac::input(m, b),
         result: |m| Mac::result(m).code().to_vec(),
         raw: |m, n| {
-            let mut out = vec![0u8; n];
+            let mut out = vec![0xa5u8; n];
             Mac::raw_result(m, &mut out);
             out
         },
@@ -221,7 +221,7 @@ pub fn run(op: &str, a: &[&str]) -> Option<String> {
         "dig.blake2b" => {
             let (ol, key, msg) = (us(a[0]), unhex(a[1]), unhex(a[2]));
             guarded(|| {
-                let mut out = vec![0u8; ol];
+                let mut out = vec![0xa5u8; ol];
                 Blake2b::blake2b(&mut out, &msg, &key);
                 hex(&out)
             })
@@ -229,7 +229,7 @@ pub fn run(op: &str, a: &[&str]) -> Option<String> {
         "dig.blake2s" => {
             let (ol, key, msg) = (us(a[0]), unhex(a[1]), unhex(a[2]));
             guarded(|| {
-                let mut out = vec![0u8; ol];
+                let mut out = vec![0xa5u8; ol];
                 Blake2s::blake2s(&mut out, &msg, &key);
                 hex(&out)
             })
@@ -266,7 +266,7 @@ pub fn run(op: &str, a: &[&str]) -> Option<String> {
             let (salt, ikm, n) = (unhex(a[1]), unhex(a[2]), us(a[3]));
             fn go<D: Digest>(mk: impl FnOnce() -> D, salt: &[u8], ikm: &[u8], n: usize) -> String {
                 guarded(|| {
-                    let mut prk = vec![0u8; n];
+                    let mut prk = vec![0xa5u8; n];
                     hkdf_extract(mk(), salt, ikm, &mut prk);
                     hex(&prk)
                 })
@@ -277,7 +277,7 @@ pub fn run(op: &str, a: &[&str]) -> Option<String> {
             let (prk, info, n) = (unhex(a[1]), unhex(a[2]), us(a[3]));
             fn go<D: Digest>(mk: impl FnOnce() -> D, prk: &[u8], info: &[u8], n: usize) -> String {
                 guarded(|| {
-                    let mut okm = vec![0u8; n];
+                    let mut okm = vec![0xa5u8; n];
                     hkdf_expand(mk(), prk, info, &mut okm);
                     hex(&okm)
                 })
@@ -294,7 +294,7 @@ pub fn run(op: &str, a: &[&str]) -> Option<String> {
             if name.starts_with("blake2bmac_") && name[11..].parse::<usize>().is_ok() {
                 let ol = us(&name[11..]);
                 return Some(guarded(|| {
-                    let mut out = vec![0u8; n];
+                    let mut out = vec![0xa5u8; n];
                     let mut m = Blake2b::new_keyed(ol, &pwd);
                     pbkdf2(&mut m, &salt, c, &mut out);
                     hex(&out)
@@ -303,7 +303,7 @@ pub fn run(op: &str, a: &[&str]) -> Option<String> {
             if name.starts_with("blake2smac_") && name[11..].parse::<usize>().is_ok() {
                 let ol = us(&name[11..]);
                 return Some(guarded(|| {
-                    let mut out = vec![0u8; n];
+                    let mut out = vec![0xa5u8; n];
                     let mut m = Blake2s::new_keyed(ol, &pwd);
                     pbkdf2(&mut m, &salt, c, &mut out);
                     hex(&out)
@@ -311,7 +311,7 @@ pub fn run(op: &str, a: &[&str]) -> Option<String> {
             }
             fn go<D: Digest>(mk: impl FnOnce() -> D, pwd: &[u8], salt: &[u8], c: u32, n: usize) -> String {
                 guarded(|| {
-                    let mut out = vec![0u8; n];
+                    let mut out = vec![0xa5u8; n];
                     let mut m = Hmac::new(mk(), pwd);
                     pbkdf2(&mut m, salt, c, &mut out);
                     hex(&out)
@@ -326,7 +326,7 @@ pub fn run(op: &str, a: &[&str]) -> Option<String> {
             }
             guarded(|| {
                 let params = ScryptParams::new(log_n as u8, r as u32, p as u32);
-                let mut out = vec![0u8; n];
+                let mut out = vec![0xa5u8; n];
                 scrypt(&pwd, &salt, &params, &mut out);
                 hex(&out)
             })
